@@ -1054,7 +1054,10 @@ class Interp:
 
     def s_Raise(self, node, env):
         if node.exc is None:
-            raise OutOfReach("bare raise")
+            cur = getattr(self, "_handling", None)
+            if not cur:
+                raise OutOfReach("bare raise outside an except block")
+            raise cur[-1]
         e = self.eval(node.exc, env)
         if isinstance(e, type):
             e = e()
@@ -1107,7 +1110,11 @@ class Interp:
                     if isinstance(ex, types_):
                         if h.name:
                             env.assign(h.name, ex)
-                        self.exec_block(h.body, env)
+                        self._handling = getattr(self, "_handling", []) + [ex]  # for a bare `raise` inside the handler
+                        try:
+                            self.exec_block(h.body, env)
+                        finally:
+                            self._handling = self._handling[:-1]
                         break
                 else:
                     raise
